@@ -31,6 +31,7 @@ fn main() {
         "C04" => props::c04::run(&cfg),
         "C05" => props::c05::run(&cfg),
         "C06" => props::c06::run(&cfg),
+        "C01" => props::c01::run(&cfg),
         "C07" => props::c07::run(&cfg),
         "C08" => props::c08::run(&cfg),
         "C09" => props::c09::run(&cfg),
@@ -51,6 +52,7 @@ fn main() {
         "loadjson" => tools::loadjson_cmd(&args),
         "classify" => tools::classify_cmd(&args),
         "minimize" => tools::minimize_cmd(&args, &cfg),
+        "c01min" => props::c01::shrink_cmd(&cfg),
         "genprog" => tools::genprog_cmd(&cfg),
         "genstats" => tools::genstats_cmd(&cfg),
         "compile" => tools::compile_cmd(&args),
